@@ -466,7 +466,7 @@ def rule_names(ctx):
         b = fx.fn("Problem::" + fn)
         fm = [hq.macro_template(n["mac_src"]) for n in walk(b["body"]) if n.get("mac") == "format" and "mac_src" in n]
         dec.append(fm)
-        ctx.add("NAMES", "decompose:%s" % fn, fm == ["{}_{i}"], ctx.site(b), "sub-problem name template %s with the enumerate() index" % fm)
+        ctx.add("NAMES", "decompose:%s" % fn, [re.sub(r"\{\w*\}", "{}", t_) for t_ in fm] == ["{}_{}"], ctx.site(b), "sub-problem name template %s (<name>_<index>)" % fm)
     finals = {}
     for t, where in temps.items():
         if "outline" in t:
